@@ -430,6 +430,10 @@ pub struct Preempt {
     pub visit: u64,
     pub steps: u32,
     pub to: usize,
+    /// how the position is reached: 0 by single-stepping `steps` instructions; 1 by a hardware breakpoint on the
+    /// `steps`-th address of the stretch (recorded by a trace run, which is made first if there is none yet);
+    /// 2 = the trace run itself (records up to `steps` arrivals after the visit, preempts nothing)
+    pub via: u8,
 }
 
 #[derive(Clone, Debug, PartialEq, Eq)]
@@ -464,7 +468,7 @@ impl RunSpec {
             v["preempts"] = json!(self
                 .preempts
                 .iter()
-                .map(|p| json!({"client": p.client, "hook_visit": p.visit, "instructions": p.steps, "to": p.to}))
+                .map(|p| json!({"client": p.client, "hook_visit": p.visit, "instructions": p.steps, "to": p.to, "via": (["single-step", "breakpoint", "trace"][p.via.min(2) as usize])}))
                 .collect::<Vec<_>>());
         }
         v
@@ -521,6 +525,11 @@ impl RunSpec {
                                 visit: p.get("hook_visit")?.as_u64()?,
                                 steps: p.get("instructions")?.as_u64()? as u32,
                                 to: p.get("to")?.as_u64()? as usize,
+                                via: match p.get("via").and_then(|x| x.as_str()) {
+                                    Some("breakpoint") => 1,
+                                    Some("trace") => 2,
+                                    _ => 0,
+                                },
                             })
                         })
                         .collect()
